@@ -87,6 +87,13 @@ def finish(res, tier, t0, checker_cmd):
     """Write evidence, print VIOLATION / KNOWN-FINDING lines, return exit code."""
     res.check_floors()
     os.makedirs(REPORTS, exist_ok=True)
+    # reports are per-run artifacts: drop those of earlier runs of this property
+    for f in os.listdir(REPORTS):
+        if f.startswith(res.prop + "-") and f.endswith(".json"):
+            try:
+                os.remove(os.path.join(REPORTS, f))
+            except OSError:
+                pass
     known = load_known()
     open_keys = {k["key"]: k for k in known if k.get("property") == res.prop and k.get("status") == "open"}
     new = []
